@@ -39,6 +39,35 @@ class FakeVideo:
         return self.frame(idx)
 
 
+class RealVideo:
+    """A real sio.Video (real decoding of a file) behind the same hook points as FakeVideo."""
+
+    def __init__(self, video, fail_idx=None, sched=None):
+        self.video, self.fail_idx, self.sched = video, fail_idx, sched
+        self.filename, self.backend = video.filename, video.backend
+
+    @property
+    def shape(self):
+        return self.video.shape
+
+    def __len__(self):
+        return len(self.video)
+
+    def __getitem__(self, idx):
+        if self.sched is not None:
+            self.sched.arrive("prod", "read", int(idx))
+        if self.fail_idx is not None and idx == self.fail_idx:
+            if self.sched is not None:
+                self.sched.log("readfail", int(idx))
+            raise IOError("injected read failure at frame %d" % idx)
+        if self.sched is not None:
+            self.sched.log("read", int(idx))
+        return self.video[idx]
+
+    def __getattr__(self, k):
+        return getattr(self.video, k)
+
+
 class FakeLF:
     def __init__(self, labels, pos, frame_idx, video, instances=()):
         self._labels, self.pos, self.frame_idx, self.video = labels, pos, frame_idx, video
